@@ -15,8 +15,9 @@ import Selene.Scope.Spec
 namespace Selene.Scope.Ordered
 open Selene.Lua Selene.Scope.Spec
 
-/-- an answer: (token of the read, token of the local declaration it denotes) -/
-abbrev Ans := Nat × Option Nat
+-- an answer (`Core.Ans`): `.read tok decl` — the read at `tok` denotes the local declaration `decl`;
+-- `.decl tok shadows` — the name declared at `tok` denoted the local declaration `shadows` just before
+open Selene.Scope.Core (Ans)
 
 def look (env : Env) (n : String) : Option Nat := (env.lookup n).map (·.1)
 
@@ -33,7 +34,22 @@ def bindParams (env : Env) : List Param → Env
 
 /-- one counted read; `...` of the main chunk is not an occurrence the lints speak about -/
 def sRead (inF : Bool) (env : Env) (t : Tok) : List Ans :=
-  if inF = false ∧ t.text = "..." then [] else [(t.idx, look env t.text)]
+  if inF = false ∧ t.text = "..." then [] else [.read t.idx (look env t.text)]
+
+/-- one declaration: what its name denotes in the environment it is added to -/
+def sDecl [Core.NameFilter] (env : Env) (t : Tok) (name : String) : List Ans :=
+  if Core.NameFilter.keep name then [.decl t.idx (look env name)] else []
+
+variable [Core.NameFilter]
+
+def sDeclAll (env : Env) (k : DeclKind) : List Tok → List Ans
+  | [] => []
+  | t :: rest => sDecl env t t.text ++ sDeclAll (bindTok env t t.text k) k rest
+
+def sDeclParams (env : Env) : List Param → List Ans
+  | [] => []
+  | .name t :: rest => sDecl env t t.text ++ sDeclParams (bindTok env t t.text .param) rest
+  | .dots t :: rest => sDeclParams (bindTok env t "..." .varargParam) rest
 
 /-! ### eager reads -/
 mutual
@@ -133,11 +149,14 @@ def sSs (inF : Bool) (env : Env) : SuffixList → List Ans
   | .cons s rest => eS inF env s ++ dS inF env s ++ sSs inF env rest
 def sBody (env : Env) (selfTok : Option Tok) : FuncBody → List Ans
   | .mk _ params b =>
+    let ds := match selfTok with
+      | some m => sDecl env m "self"
+      | none => []
     let env := match selfTok with
       | some m => bindTok env m "self" .self_
       | none => env
-    let env : Env := if hasDots params then env else ("...", none) :: env
-    (sBlock true (bindParams env params) b).1
+    let env : Env := ("...", none) :: env
+    ds ++ sDeclParams env params ++ (sBlock true (bindParams env params) b).1
 def sBlock (inF : Bool) (env : Env) : Block → List Ans × Env
   | .mk _ stmts last =>
     let r := sStmts inF env stmts
@@ -167,7 +186,7 @@ def sElifs (inF : Bool) (env : Env) : ElseIfList → List Ans
     eE inF env c ++ dE inF env c ++ (sBlock inF env b).1 ++ sElifs inF env rest
 def sStmt (inF : Bool) (env : Env) : Stmt → List Ans × Env
   | .assign _ vars es => (sTargets inF env vars es ++ dVs inF env vars ++ dEs inF env es, env)
-  | .localAssign _ names es => (eEs inF env es ++ dEs inF env es, bindAll env .local_ names)
+  | .localAssign _ names es => (eEs inF env es ++ dEs inF env es ++ sDeclAll env .local_ names, bindAll env .local_ names)
   | .call (.mk _ p ss) => (eP inF env p ++ dP inF env p ++ sSs inF env ss, env)
   | .do_ _ b => ((sBlock inF env b).1, env)
   | .while_ _ c b => (eE inF env c ++ dE inF env c ++ (sBlock inF env b).1, env)
@@ -183,10 +202,10 @@ def sStmt (inF : Bool) (env : Env) : Stmt → List Ans × Env
     let envIn := bindTok env v v.text .loopVar
     (eE inF env start ++ eE inF env stop ++ (match step with | .some e => eE inF env e | .none => []) ++
       dE inF env start ++ dE inF env stop ++ (match step with | .some e => dE inF env e | .none => []) ++
-      (sBlock inF envIn b).1, env)
+      sDecl env v v.text ++ (sBlock inF envIn b).1, env)
   | .genFor _ names es b =>
     let envIn := bindAll env .loopVar names
-    (eEs inF env es ++ dEs inF env es ++ (sBlock inF envIn b).1, env)
+    (eEs inF env es ++ dEs inF env es ++ sDeclAll env .loopVar names ++ (sBlock inF envIn b).1, env)
   | .func _ name body =>
     match name.names with
     | [] => ([], env)
@@ -195,7 +214,7 @@ def sStmt (inF : Bool) (env : Env) : Stmt → List Ans × Env
         sBody env name.method body, env)
   | .localFunc _ name body =>
     let env' := bindTok env name name.text .localFunc
-    (sBody env' none body, env')
+    (sDecl env name name.text ++ sBody env' none body, env')
   | .unsupported _ => ([], env)
 end
 
